@@ -2,6 +2,7 @@ package simrt
 
 import (
 	"strings"
+	"sync"
 )
 
 // panicKey extracts a stable witness key from a panic stack: the first
@@ -23,4 +24,65 @@ func panicKey(stack []byte) string {
 		}
 	}
 	return "unknown"
+}
+
+// Pool stands in for sync.Pool in the instrumented copy: same API, but what
+// Get returns is a function of the run (last in, first out) instead of the
+// thread that asks, and every pool is emptied when a new run starts, so a run
+// is a fresh process as far as pooled objects go.
+type Pool struct {
+	New   func() any
+	mu    sync.Mutex
+	items []any
+	known bool
+}
+
+var (
+	poolsMu sync.Mutex
+	pools   []*Pool
+)
+
+func (p *Pool) register() {
+	if !p.known {
+		p.known = true
+		poolsMu.Lock()
+		pools = append(pools, p)
+		poolsMu.Unlock()
+	}
+}
+
+// Get returns the most recently Put item, or New().
+func (p *Pool) Get() any {
+	p.mu.Lock()
+	p.register()
+	if n := len(p.items); n > 0 {
+		x := p.items[n-1]
+		p.items = p.items[:n-1]
+		p.mu.Unlock()
+		return x
+	}
+	p.mu.Unlock()
+	if p.New != nil {
+		return p.New()
+	}
+	return nil
+}
+
+// Put adds an item.
+func (p *Pool) Put(x any) {
+	p.mu.Lock()
+	p.register()
+	p.items = append(p.items, x)
+	p.mu.Unlock()
+}
+
+// ResetPools empties every pool (between runs).
+func ResetPools() {
+	poolsMu.Lock()
+	defer poolsMu.Unlock()
+	for _, p := range pools {
+		p.mu.Lock()
+		p.items = nil
+		p.mu.Unlock()
+	}
 }
